@@ -8,11 +8,14 @@
    The FULL statement "never panics" is FALSE of the code (recorded finding
    bytes-attr-invalid-panics, pinned by TestAttrUnmarshalToType): refuted with
    a witness and proved under the guard [no_bytes_schema] (no byte-string
-   attribute).  [all_soft]: types without NewFunc; struct-backed types are
-   covered by the correspondence run only. *)
+   attribute): first for schemas of soft types ([all_soft]), then
+   ([C05_*_mixed]) for schemas that mix soft and struct-backed types, where
+   every struct is one Wrap accepts and the schema holds the type BuildType
+   gives for it ([sch_ok]) -- the decoded values have the Go types of the
+   struct's fields, so no Set panics. *)
 From JV Require Import Model.Base Model.GoTime Gen.TypeGo Model.Schema Model.Value
   Model.Json Model.Resource Model.Unmarshal Model.Document
-  Proofs.C13Facts Proofs.C05Facts.
+  Proofs.C13Facts Proofs.C05Facts Proofs.C01Wrapped Proofs.C05Mixed.
 
 Theorem C05_total_refuted : forall e,
   unmarshal_resource e c05_schema
@@ -39,6 +42,31 @@ Theorem C05_document_partial : forall e s j,
   all_soft s -> no_bytes_schema s -> unmarshal_document e s j <> Panic.
 Proof. exact unmarshal_document_no_panic. Qed.
 Print Assumptions C05_document_partial.
+
+(* the same for schemas mixing soft and struct-backed types *)
+Theorem C05_resource_mixed : forall e s j,
+  sch_ok s -> no_bytes_schema s -> unmarshal_resource e s j <> Panic.
+Proof. exact unmarshal_resource_no_panic_mixed. Qed.
+Print Assumptions C05_resource_mixed.
+
+Theorem C05_partial_resource_mixed : forall e s j,
+  no_bytes_schema s -> unmarshal_partial e s j <> Panic.
+Proof. exact unmarshal_partial_no_panic_mixed. Qed.
+Print Assumptions C05_partial_resource_mixed.
+
+Theorem C05_collection_mixed : forall e s j,
+  sch_ok s -> no_bytes_schema s -> unmarshal_collection e s j <> Panic.
+Proof. exact unmarshal_collection_no_panic_mixed. Qed.
+Print Assumptions C05_collection_mixed.
+
+Theorem C05_document_mixed : forall e s j,
+  sch_ok s -> no_bytes_schema s -> unmarshal_document e s j <> Panic.
+Proof. exact unmarshal_document_no_panic_mixed. Qed.
+Print Assumptions C05_document_mixed.
+
+(* the guard is satisfiable: the schema holding the example struct of C01 *)
+Example c05_mixed_guard_example : sch_ok exw_sch /\ no_bytes_schema exw_sch.
+Proof. exact exw_sch_ok. Qed.
 
 (* identifiers: no guard needed *)
 Theorem C05_identifier_total : forall s j, unmarshal_identifier s j <> Panic.
